@@ -1065,6 +1065,8 @@ Library read_gds(const char* filename, double unit, double tolerance, const Set<
                 break;
             case GdsiiRecord::PATH:
             case GdsiiRecord::RAITHMBMSPATH:
+                // WIDTH is optional and defaults to 0: do not inherit it from a previous element
+                width = 0;
                 path = (FlexPath*)allocate_clear(sizeof(FlexPath));
                 path->num_elements = 1;
                 path->elements = (FlexPathElement*)allocate_clear(sizeof(FlexPathElement));
